@@ -250,6 +250,16 @@ class Jet:
         e = tm.exp(self.c[()])
         return self.compose([e] * (self.order + 1))
 
+    def sin(self):
+        sn, cs = tm.fn('sin', [self.c[()]]), tm.fn('cos', [self.c[()]])
+        cyc = [sn, cs, tm.neg(sn), tm.neg(cs)]
+        return self.compose([cyc[n % 4] for n in range(self.order + 1)])
+
+    def cos(self):
+        sn, cs = tm.fn('sin', [self.c[()]]), tm.fn('cos', [self.c[()]])
+        cyc = [cs, tm.neg(sn), tm.neg(cs), sn]
+        return self.compose([cyc[n % 4] for n in range(self.order + 1)])
+
     def __pow__(self, p):
         if isinstance(p, SymReal):
             if p.t.op != 'c':
